@@ -46,6 +46,15 @@ def make(I):
     def oblige(I, name, c):
         I.ctx.oblige(name, zbool(c))
 
+    def model_limit(I, name, c):
+        """the model describes the external function only where `c` holds: elsewhere the path is undecided (never proved, never a violation)"""
+        if isinstance(c, bool):
+            if not c:
+                raise Unsupported('outside the modelled range: ' + name)
+            return True
+        I.ctx.oblige('model-limit: ' + name, zbool(c), soft=True)
+        return True
+
     def event(I, kind, **kw):
         I.ctx.event(kind, **kw)
 
@@ -73,6 +82,7 @@ def make(I):
         for a in args:
             if isinstance(a, Arr):
                 zs.append(z3.IntVal(getattr(a, 'cid', a.id)))
+                I.ctx.ghost.setdefault('arrays_by_cid', {})[getattr(a, 'cid', a.id)] = a
             elif isinstance(a, bool):
                 zs.append(z3.BoolVal(a))
             elif isinstance(a, Sym) and a.kind == 'bool':
@@ -219,6 +229,9 @@ def make(I):
             return None
         out = []
         for a in v.e.children():
+            if a.sort().kind() == z3.Z3_INT_SORT and z3.is_int_value(a) and a.as_long() in I.ctx.ghost.get('arrays_by_cid', {}):
+                out.append(I.ctx.ghost['arrays_by_cid'][a.as_long()])      # an array argument (passed by content identity): the array itself
+                continue
             out.append(mk(a, 'int' if a.sort().kind() == z3.Z3_INT_SORT else 'bool' if a.sort().kind() == z3.Z3_BOOL_SORT else 'real'))
         return tuple(out)
 
@@ -239,9 +252,14 @@ def make(I):
             return all(p.isascii() for p in v.parts if isinstance(p, str))
         raise Unsupported('text_isascii of a non-text value')
 
-    def exact_number_text(I, value):
+    def exact_number_text(I, value, dots=None):
         """text of a number in positional decimal notation that float() parses back to exactly `value` (A-PY)"""
-        return Rope([Fmt(value, None, 'exact')])
+        f = Fmt(value, None, 'exact')
+        if dots is not None:
+            if dots not in (0, 1):
+                raise Unsupported('a numeral has at most one decimal point')
+            f.dots = dots          # the writer of the token says whether the numeral has a decimal point (an integer field has none)
+        return Rope([f])
 
     def piece_value(I, piece):
         """numeric value denoted by one numeric text piece"""
@@ -327,11 +345,11 @@ def make(I):
     def fmt_pieces(I, text):
         """the pieces of a symbolic text: list of str | ('num', value, prec)"""
         parts = [text] if isinstance(text, str) else text.parts
-        return VList([p if isinstance(p, str) else ('num', p.value, p.prec, p.kind) for p in parts])
+        return VList([p if isinstance(p, str) else ('num', p.value, p.prec, p.kind, p.ndots()) for p in parts])
 
     ns = dict(fresh_real=F('fresh_real', fresh_real), fresh_int=F('fresh_int', fresh_int), fresh_bool=F('fresh_bool', fresh_bool),
               fact=F('fact', fact), assume=F('assume', assume), implies=F('implies', implies), ite=F('ite', ite),
-              oblige=F('oblige', oblige), event=F('event', event), is_symbolic=F('is_symbolic', is_symbolic),
+              oblige=F('oblige', oblige), model_limit=F('model_limit', model_limit), event=F('event', event), is_symbolic=F('is_symbolic', is_symbolic),
               unsupported=F('unsupported', unsupported), uf_real=F('uf_real', uf_real), uf=F('uf', uf), split_first_line=F('split_first_line', split_first_line), uf_text=F('uf_text', uf_text), stub=F('stub', stub), is_text=F('is_text', is_text), use_lemma=F('use_lemma', use_lemma), uf_application_args=F('uf_application_args', uf_application_args), text_isascii=F('text_isascii', text_isascii), exact_number_text=F('exact_number_text', exact_number_text), piece_value=F('piece_value', piece_value), text_equal=F('text_equal', text_equal), abstract_path_vertices=F('abstract_path_vertices', abstract_path_vertices), abstract_path_codes=F('abstract_path_codes', abstract_path_codes), abstract_outline_vertices=F('abstract_outline_vertices', abstract_outline_vertices), abstract_outline_codes=F('abstract_outline_codes', abstract_outline_codes), is_selection=F('is_selection', is_selection), selection_parts=F('selection_parts', selection_parts), is_nonfinite=F('is_nonfinite', is_nonfinite), lemma=F('lemma', lemma), general=F('general', general), arr_like=F('arr_like', arr_like), is_bool_scalar=F('is_bool_scalar', is_bool_scalar), is_bool_array=F('is_bool_array', is_bool_array), dtype_of=F('dtype_of', dtype_of), uf_bool=F('uf_bool', uf_bool),
               arr_from_fn=F('arr_from_fn', arr_from_fn), arr_at=F('arr_at', arr_at), witness=F('witness', witness), is_array=F('is_array', is_array),
               cos=F('cos', N.np_cos), sin=F('sin', N.np_sin), sqrt=F('sqrt', lambda I, x: B.sqrt_(I, x)), PI=N.PI,
